@@ -206,7 +206,70 @@ def _one_d(item):
     return ("D", ib, idth), out, n, want[1]
 
 
+# ---- family E: (1) the order in which a scope's locals die must not depend on what they are called; (2) a free function means the same
+# whichever method calls it - a field or type parameter of the CALLER's class named like a class the callee uses must not matter
+E_NAMES = ["a", "b", "c", "d", "o", "k", "first", "x1", "zz", "q9"]
+
+
+def render_e1(names):
+    decls = " ".join("Acc %s = new Acc(%d);" % (n, i + 1) for i, n in enumerate(names))
+    return ("class Acc { public int id; public constructor(int i) -> Acc { this.id = i; } public destructor() -> void { echo(\"bye \" + this.id); } }\n"
+            "function scoped() -> int { %s echo(\"body\"); return %d; }\n"
+            "function main() -> void { { %s echo(\"block\"); } echo(scoped()); %s echo(\"end\"); }\n" % (decls, len(names), decls, decls))
+
+
+def render_e2(sname, fname, tp):
+    return ("static class Cfg { public static int v = 7; }\n"
+            "class T { public int t = 5; public constructor() -> T = default; }\n"
+            "class U { public int t = 6; public constructor() -> U = default; }\n"
+            "class Caller { public static int %s = 99; public int %s = 98; public constructor() -> Caller = default; public function run() -> int { return helper() * 100 + mk(); } "
+            "public static function srun() -> int { return helper() * 100 + mk(); } }\n"
+            "class Box<%s> { public constructor() -> Box<%s> = default; public function go() -> int { return helper() * 100 + mk(); } }\n"
+            "function helper() -> int { return Cfg.v; }\n"
+            "function mk() -> int { T made = new T(); return made.t; }\n"
+            "function main() -> void { echo(helper() * 100 + mk()); Caller c = new Caller(); echo(c.run()); echo(Caller.srun()); Box<U> b = new Box<U>(); echo(b.go()); }\n" % (sname, fname, tp, tp))
+
+
+def e_items(tier):
+    items = []
+    for k in ((3, 4) if tier != "thorough" else (3, 4, 5)):
+        variants = list(itertools.permutations(E_NAMES, k))
+        if k >= 4:
+            variants = variants[::7] if k == 4 else variants[::61]
+        for i in range(0, len(variants), 200):
+            items.append((("E1", k), variants[i:i + 200]))
+    combos = [(sn, fn, tp) for sn in ("Cfg", "T", "U", "plainS") for fn in ("Cfg", "T", "U", "plainF") for tp in ("T", "U", "W") if sn != fn]
+    items.append((("E2",), combos))
+    return items
+
+
+def _one_e(item):
+    tag, variants = item
+    out, n = [], 1
+    if tag[0] == "E1":
+        ref_src = render_e1(["u%d" % i for i in range(tag[1])])
+    else:
+        ref_src = render_e2("plainS", "plainF", "W")
+    r0 = vdrv.run_src(ref_src, gc="own", warn=0)
+    if r0.crash or r0.rec is None or r0.rec.get("status") != "ok":
+        return tag, [("reference", ref_src, "the uniquely named variant did not run: %s %s" % (r0.status(), (r0.rec or {}).get("msg", r0["fd2"][:200])))], 1, None
+    want = (r0.rec["status"], r0.rec["stdout"])
+    for v in variants:
+        src = render_e1(list(v)) if tag[0] == "E1" else render_e2(*v)
+        r = vdrv.run_src(src, gc="own", warn=0)
+        n += 1
+        if r.crash:
+            out.append((v, src, "interpreter died: %s" % r.crash))
+            continue
+        got = (r.rec.get("status"), r.rec.get("stdout", ""))
+        if got != want:
+            out.append((v, src, "renaming changed the behaviour: with unique names the program prints %r, with names %s it gives %s %r %s" % (want[1], list(v), got[0], got[1], r.rec.get("msg", ""))))
+    return tag, out, n, want[1]
+
+
 def _one(item):
+    if item[0][0] in ("E1", "E2"):
+        return _one_e(item)
     if item[0][0] == "D":
         return _one_d((item[0][1:], item[1]))
     (i1, i2, i3, ic), name_list = item
@@ -258,7 +321,10 @@ def main(tier):
             for i in range(0, len(dn), 250):
                 items.append((("D", ib, idth), dn[i:i + 250]))
                 total += len(dn[i:i + 250])
-    items.sort(key=lambda it: 0 if it[0][0] == "D" else 1)      # the small family first: it completes even if the deadline cuts the rest
+    for it in e_items(tier):
+        items.append(it)
+        total += len(it[1])
+    items.sort(key=lambda it: 0 if it[0][0] in ("D", "E1", "E2") else 1)      # the small family first: it completes even if the deadline cuts the rest
     outs = set()
     nruns = 0
     done = 0
@@ -274,7 +340,7 @@ def main(tier):
                 outs.add((combo, refout))
             for names, src, p in bad:
                 collide = sorted(k for k in ("aP", "bL", "fP", "fL", "mA", "mB", "uP", "uL", "hP", "hL", "dL") if isinstance(names, dict) and names.get(k) in (names.get("F1"), names.get("F2")))
-                ck.violation("variant:%s:%s" % (combo, ",".join(collide) if isinstance(names, dict) else names), "%s\nprogram:\n%s" % (p, src),
+                ck.violation("variant:%s:%s" % (combo, ",".join(collide) if isinstance(names, dict) else ("reference" if names == "reference" else "renamed")), "%s\nprogram:\n%s" % (p, src),
                              {"tool": "vdrv", "job": {"kind": "run", "opts": {"gc": "own", "warn": 0}, "blobs": {"src": src}}})
     ck.sample({"unique": render(UNIQUE, M1_BODIES[0], M2_BODIES[0], F_BODIES[0], CALLS[7])})
     ck.sample({"colliding": render({"S1": "x", "S2": "y", "oP": "x", "oL": "n", "F1": "x", "F2": "y", "aP": "n", "bL": "n", "fP": "x", "fL": "y", "gP": "x", "cP": "x", "mA": "x", "mB": "y"}, M1_BODIES[0], M2_BODIES[0], F_BODIES[0], CALLS[4])})
